@@ -37,6 +37,7 @@ from quara.protocol.qtomography.standard.standard_qtomography_estimator import (
     StandardQTomographyEstimator,
     StandardQTomographyEstimationResult,
 )
+from quara.utils.number_util import to_stream
 from quara.simulation.generation_setting import (
     QOperationGenerationSettings,
     QOperationGenerationSetting,
@@ -837,6 +838,9 @@ def generate_empi_dists_and_calc_estimate(
         )
         return estimation_result, empi_dists_seq
     else:
+        # one random number stream for the whole run: an integer seed handed to every repetition
+        # would restart the same stream each time and make the repetitions copies of one another
+        seed_or_generator = to_stream(seed_or_generator)
         estimation_results = []
         empi_dists_sequences = []
         for _ in tqdm(range(iteration)):
